@@ -10,6 +10,8 @@ FEATURES = [set(), {"filter"}, {"period_filter"}, {"stochastic"}, {"constraint"}
             {"two_cont_choices"}, {"mixed_discrete_choices", "filter"}, {"filter", "stochastic"},
             {"constraint", "two_cont_choices"}, {"two_stochastic"}, {"period_filter", "stochastic"},
             {"period_filter", "two_filters"}, set()]
+# every second feature set additionally asks for a utility that tells all states apart
+FEATURES = [f | {"separating"} if k % 2 == 0 else f for k, f in enumerate(FEATURES)]
 
 TRUSTED = [
     "Spec/Lang.v, Spec/Bellman.v, Spec/Layout.v are the specification (hand-written, independent of lcm's array code); the runner evaluates them on the generated model",
